@@ -83,6 +83,19 @@ def run_(tier):
         cases.append({"id": "c10-%03d" % i, "profiles": PROFILES, "docs": DOCS, "dclasses": DCLASS, "pclasses": PCLASS,
                       "sharedProfiles": ["pOk", "pOk2"], "goroutines": gor * mult, "probes": ["dOk", "dPass", "dOk2"],
                       "rounds": rounds, "yield": i % 2 == 0})
+    # one dense schedule in every run, whatever the simulated ones look like: every goroutine validates non-conforming
+    # documents through all three entry points, neighbours under different report configurations, all released together
+    dense = []
+    for g in range(8):
+        c1, c2 = (["default", "alt"] if g % 2 == 0 else ["alt", "default"])
+        dense.append([{"entry": "validate", "pkey": "pOk", "dkey": "dOk", "cfg": c1},
+                      {"entry": "validateCompiled", "pkey": "pOk", "dkey": "dOk2", "shared": 0, "cfg": c2},
+                      {"entry": "validate", "pkey": "pOk2", "dkey": "dOk2", "cfg": c1},
+                      {"entry": "compile", "pkey": "pOk2", "dkey": "", "cfg": c2},
+                      {"entry": "validateCompiled", "pkey": "pOk2", "dkey": "dOk", "shared": 1, "cfg": c1}])
+    cases.append({"id": "c10-dense", "profiles": PROFILES, "docs": DOCS, "dclasses": DCLASS, "pclasses": PCLASS,
+                  "sharedProfiles": ["pOk", "pOk2"], "goroutines": dense, "probes": ["dOk", "dPass", "dOk2"],
+                  "rounds": rounds + 2, "yield": True})
     logdir = os.path.join(vlib.BUILD, "race")
     shutil.rmtree(logdir, ignore_errors=True)
     os.makedirs(logdir)
@@ -125,7 +138,8 @@ def run_(tier):
         "traces_validated_against_impl": len(byid),
         "evaluations": ncalls, "distinct_nontrivial": len(scheds),
         "rule": "call schedules = TLC -simulate behaviours of ACV with 4 procs x 3 calls (which calls overlap, which share a "
-                "compiled profile), executed by a -race build with 4 or 16 goroutines released together, %d rounds; every "
+                "compiled profile) plus one dense schedule of 8 goroutines x 5 calls on non-conforming documents with "
+                "alternating report configurations, executed by a -race build with 4 or 16 goroutines released together, %d rounds; every "
                 "call's report hash must equal its solo value (bound in the trace spec), handles compiled under concurrency "
                 "are probed on 3 documents, the counter values seen by hook H3 must be a run of the atomic Genvar action; "
                 "any Go race-detector report is a violation; distinct = distinct schedules" % rounds,
